@@ -172,12 +172,34 @@ def check_property(prop, tier):
             if prop == "C10" and cfg.startswith(("GenShapes", "GenRecycled")):
                 r = run_replay(b, path, ["--no-observers", "--no-lookups", "--post-pulls", "--detable", det + ".plain"], "C10-post-%s" % cfg)
                 add_replay(v, r, meta, "double-ended consumption of every live node's iterators in the state AFTER every successful call on every shape", ["C10"])
+                if cfg.startswith("GenShapes"):
+                    # again without debug assertions (an assertion that fires inside the call would hide the links it leaves behind)
+                    r = run_replay(build_harness("release"), path, ["--no-observers", "--no-lookups", "--post-pulls", "--detable", det + ".plain"], "C10-post-%s-release" % cfg)
+                    add_replay(v, r, meta, "the same on a release build", ["C10"])
 
     if prop == "C16":
         for cfg in bundle_cfgs:
             path, meta = ensure_bundles(cfg)
             r = run_replay(build_harness("debug"), path, ["--roundtrip", "--no-observers", "--no-lookups"], "C16-" + cfg)
             add_replay(v, r, meta, "serde_json round trip at every reachable model state + one-step bisimulation of original and copy under every call", ["C16"])
+
+    if prop == "C02":
+        # "every API call returns" includes formatting a debug_pretty_print proxy: every rendering of the print battery must end
+        # (output bounded by 4 MiB, 60 s without progress = does not return); only these findings are taken here, the text is C14's
+        cfg = "GenPrint_s4" if tier == "quick" else "GenPrint_s5"
+        ppath, pmeta = ensure_bundles(cfg)
+        out = os.path.join(vlib.RUN, "print-C02.json")
+        rc, o = sh(["bash", "-c", "pigz -dc %s | %s print --out %s; exit ${PIPESTATUS[1]}" % (ppath, build_harness("debug"), out)], timeout=3600)
+        if rc != 0:
+            raise ToolError("print harness failed: " + o[-2000:])
+        r = json.load(open(out))
+        v.cov["evaluations"] += r["renderings"]
+        v.cov["parts"].append({"part": "print-terminates:" + cfg, "what": "every debug_pretty_print rendering of the print battery (4 modes, every start node, multi-line payloads with empty lines) returns", "renderings": r["renderings"]})
+        v.add_findings([f for f in r["findings"] if f["prop"] == "C02"], "print-terminates")
+
+    if prop == "C08":
+        # payloads that enter the arena through tree! (root value, node expressions): destructor runs counted per label
+        check_c15(v, tier)
 
     if prop == "C14":
         check_c14(v, tier)
